@@ -344,7 +344,16 @@ def adversarial_cases():
         ("empty-handshake-record", "tls13", "both", 22, b"", None),
         ("empty-alert-record", "tls13", "both", 21, b"", None),
         ("unknown-content-type", "tls13", "both", 99, b"zz", None),
-    ]
+    ] + [
+        # heartbeat messages although the extension was not negotiated:
+        # one side has it switched off (it neither offers nor acknowledges)
+        ("hb-%s-%s-%s" % (kind, off, ver), "%s-hb-%s-off" % (ver, off),
+         "both", 24, body, None)
+        for ver in ("tls13", "tls12")
+        for off in ("server", "client", "both")
+        for (kind, body) in (
+            ("request", b"\x01\x00\x04ping" + bytes(16)),
+            ("response", b"\x02\x00\x04ping" + bytes(16)))]
 
 
 def adversarial_case(item):
@@ -352,7 +361,16 @@ def adversarial_case(item):
     name, where, direction, ctype, body, recsize = adversarial_cases()[ai]
     res = {"name": name, "n": 0, "fails": [], "sigs": set()}
     CSs = CS
-    if where.startswith("tls13"):
+    if "-hb-" in where:
+        ver, _, off, _ = where.split("-")
+        kw = dict(version=(3, 4) if ver == "tls13" else (3, 3), cred="rsa",
+                  suite=CSs.TLS_AES_128_GCM_SHA256 if ver == "tls13" else
+                  CSs.TLS_ECDHE_RSA_WITH_AES_128_GCM_SHA256)
+        if off in ("server", "both"):
+            kw["sset"] = {"use_heartbeat_extension": False}
+        if off in ("client", "both"):
+            kw["cset"] = {"use_heartbeat_extension": False}
+    elif where.startswith("tls13"):
         kw = dict(version=(3, 4), cred="rsa", tickets=False,
                   suite=CSs.TLS_AES_128_GCM_SHA256)
         if where != "tls13-nopha":
